@@ -4,7 +4,10 @@
    are not crystallographic for QMAX >= 2 (e.g. (2,1,0,0): rotation about x with cos = 3/5).  One TLC state per rotation:
    exact s, p, d matrices, orthogonality, parity, and the homomorphism law against a fixed set of partner rotations. *)
 EXTENDS OrbRep
-CONSTANTS QMAX, NORMS, NPART, Variant
+CONSTANTS QMAX, NORMS, NPART, Variant,
+          SGNS      \* subset of {1, -1}: proper rotations, rotations times inversion
+SgnsBoth == {1, -1}          \* for the cfg (no negative literals there):  SGNS <- SgnsBoth  /  SGNS <- SgnsImproper
+SgnsImproper == {-1}
 VARIABLES q, sgn, R, dp, dd
 vars == <<q, sgn, R, dp, dd>>
 
@@ -19,7 +22,7 @@ RotOf(x, s) == LET a == x[1]  b == x[2]  c == x[3]  d == x[4]  n == QN(x) IN
       <<Rat(s * 2 * (b * d - a * c), n), Rat(s * 2 * (c * d + a * b), n), Rat(s * (a * a - b * b - c * c + d * d), n)>> >>
 Partners == <<C4z, C3d, Inv, C2x>>
 
-Init == /\ q \in Quats /\ sgn \in {1, -1}
+Init == /\ q \in Quats /\ sgn \in SGNS
         /\ R = RotOf(q, sgn) /\ dp = DP(R, Variant) /\ dd = DD(R, Variant)
 Next == UNCHANGED vars
 Spec == Init /\ [][Next]_vars
